@@ -66,6 +66,8 @@ def main():
     body += "Definition EXCLUDE : list pstr := %s.\n" % L.lst([L.pstr(x) for x in constants.EXCLUDE], "pstr")
     body += "Definition CONFIDENCE_DEFAULT : pstr := %s.\n" % L.pstr(constants.CONFIDENCE_DEFAULT)
     body += "Definition consts_gen : consts := Consts RANKING RANKING_VALUES.\n"
+    from bandit.plugins import trojansource as _tj
+    body += "Definition BIDI_CHARACTERS : list N := %s.\n" % L.lst([L.N(ord(ch)) for ch in _tj.BIDI_CHARACTERS], "N")
     write("Constants.v", body)
 
     # ---- Blacklists (as loaded by the extension manager)
